@@ -211,6 +211,18 @@ def run(ctx):
         if k % 3 == 0:
             gs.append({"name": "GenB", "prog": close(rnd.choice(progs)), "acl": rnd_acl(rnd, "GenB", p=0.4)})
         observe("s2c", gs, vendor, model, prefix)
+    # one block row covered by differently spelled parent rules of two generators that share a child rule text
+    for k in range(60 if quick else 600):
+        vendor, model, prefix = profiles[k % 2]
+        parents = rnd.sample([[L("blk"), STAR], [L("blk"), L("1")], [L("blk"), {"t": "tilde"}]], 2)
+        child = rnd.choice([[L("x"), STAR], [L("y")]])
+        cda, cdb = rnd.choice([(None, None), (False, False), (None, False), (True, None), (True, True)])
+        gs = []
+        for name, par, cd in (("GenA", parents[0], cda), ("GenB", parents[1], cdb)):
+            acl = [aclgen.mk(par, [aclgen.mk(child, [], False, cd, name)], False, rnd.choice([None, True]), name)]
+            yields = [{"op": "enter", "row": ["blk", "1"]}, {"op": "y", "row": ["x", "1"] if child[0]["w"] == "x" else ["y"]}, {"op": "leave"}]
+            gs.append({"name": name, "prog": yields if (name == "GenA" or rnd.random() < 0.5) else [], "acl": acl})
+        observe("shared", gs, vendor, model, prefix)
     # seeded longer programs, 1-3 generators
     for k in range(1500 if quick else 30000):
         vendor, model, prefix = profiles[k % 2]
